@@ -118,6 +118,7 @@ class Real:
         self.attr_graphs: set[int] = set()  # graph ids already used as a node attribute
         self.funcs: dict[int, Any] = {}  # graph id -> ir.Function wrapping it (created on demand)
         self.locked: set[int] = set()  # ids of const tensors that refuse renaming
+        self.views: list = []  # GraphView objects by creation index (None: dropped)
 
     # ---- registries
     def reg_val(self, v) -> int:
@@ -468,6 +469,26 @@ class Real:
                 self.Vs(op["oldVals"]),
                 self.Vs(op["newVals"]),
             )
+        elif k == "newView":
+            # one-shot iterators: the constructor must materialise its arguments (tuple(...) / one pass over initializers)
+            view = ir.GraphView(
+                iter(self.Vs(op["inputs"])), iter(self.Vs(op["outputs"])), nodes=iter(self.Ns(op["nodes"])),
+                initializers=iter(self.Vs(op["inits"])), name=op.get("name"),
+            )
+            self.views.append(view)
+        elif k == "viewSet":
+            setattr(self.views[op["view"]], op["slot"], tuple(self.Vs(op["vs"])))
+        elif k == "viewInits":
+            self.views[op["view"]].initializers = {k_: self.vals[v] for k_, v in op["kvs"]}
+        elif k == "viewInitPut":
+            self.views[op["view"]].initializers[op["key"]] = self.vals[op["v"]]
+        elif k == "viewInitDel":
+            del self.views[op["view"]].initializers[op["key"]]
+        elif k == "viewDrop":
+            import gc
+
+            self.views[op["view"]] = None
+            gc.collect()
         elif k == "sort":
             import onnx_ir.traversal as tr
 
@@ -542,6 +563,28 @@ class Real:
             )
         return {"values": vals, "nodes": nodes, "graphs": graphs, "tensors": [t.name for t in self.tensors]}
 
+    def views_snapshot(self) -> list:
+        """What every live GraphView shows (same shape as Drive/Kernel.lean `viewJ`); read through the view's public
+        members: the slots and the Sequence protocol."""
+        out = []
+        for view in self.views:
+            if view is None:
+                out.append(None)
+                continue
+            seq = list(view)
+            assert len(view) == len(seq) and [id(n) for n in reversed(view)] == [id(n) for n in reversed(seq)]
+            assert all(view[i] is n for i, n in enumerate(seq))
+            out.append({
+                "inputs": [self._v(x) for x in view.inputs],
+                "outputs": [self._v(x) for x in view.outputs],
+                "inits": [[k_, self._v(x)] for k_, x in view.initializers.items()],
+                "nodes": [self._n(x) for x in seq],
+            })
+        return out
+
+
+VIEW_OPS = ("newView", "viewSet", "viewInits", "viewInitPut", "viewInitDel", "viewDrop")
+
 
 def delta(prev: dict, cur: dict) -> dict:
     """Records that are new or differ from the previous snapshot (stores never shrink)."""
@@ -556,8 +599,18 @@ def delta(prev: dict, cur: dict) -> dict:
 
 
 def wf_oracle(real: Real) -> list[str]:
-    """The C01 invariant on the real objects. Returns the list of violated clauses (empty = holds)."""
+    """The C01 invariant on the real objects. Returns the list of violated clauses (empty = holds).
+    An accessor of the real code that raises while the invariant is being evaluated (e.g. `node.outputs` of a node a
+    rejected constructor left half built) is a violated clause, never a harness crash."""
     bad: list[str] = []
+    try:
+        _wf_oracle(real, bad)
+    except Exception as e:  # noqa: BLE001 - real code called on a possibly broken state
+        bad.append(f"oracle:accessor raised {type(e).__name__} while the invariant was evaluated ({str(e)[:120]})")
+    return bad
+
+
+def _wf_oracle(real: Real, bad: list[str]) -> None:
     vals, nodes, graphs = real.vals, real.nodes, real.graphs
     known_v = {id(v) for v in vals}
     known_n = {id(n) for n in nodes}
@@ -599,7 +652,11 @@ def wf_oracle(real: Real) -> list[str]:
         p = v.producer()
         if p is not None:
             idx = v.index()
-            outs = p.outputs
+            try:
+                outs = p.outputs
+            except Exception as e:  # noqa: BLE001 - a node whose constructor was rejected half way has no outputs tuple
+                bad.append(f"prod:value v{vi} names a producer whose outputs cannot be read ({type(e).__name__})")
+                continue
             if id(p) not in known_n or idx is None or not (0 <= idx < len(outs)) or outs[idx] is not v:
                 bad.append(f"prod:value v{vi} names a producer that does not list it")
     # I_root
@@ -664,13 +721,21 @@ def wf_oracle(real: Real) -> list[str]:
             p = v.producer()
             if owner is not (p.graph if p is not None else None):
                 bad.append(f"own:v{vi} is not flagged but names a graph")
-    return bad
 
 
 # --------------------------------------------------------------------------- C06 oracle
 
 
 def deep_snapshot(real: Real, limit: tuple | None = None) -> Any:
+    """`_deep_snapshot`, total: an accessor of the real code that raises makes the snapshot `("UNREADABLE", what)`
+    (unequal to every readable snapshot), never a harness crash."""
+    try:
+        return _deep_snapshot(real, limit)
+    except Exception as e:  # noqa: BLE001 - real code called on a possibly broken state
+        return ("UNREADABLE", f"{type(e).__name__}: {str(e)[:120]}")
+
+
+def _deep_snapshot(real: Real, limit: tuple | None = None) -> Any:
     """Every public accessor of every registered object (+ the name authority, whose state decides later
     generated names, and the tracked lists' reference counters, which decide when a later removal clears an
     ownership flag). Separate implementation from `Real.snapshot`."""
@@ -762,6 +827,9 @@ def deep_snapshot(real: Real, limit: tuple | None = None) -> Any:
 
 
 def first_diff(a: Any, b: Any) -> str:
+    for x in (a, b):
+        if x and x[0] == "UNREADABLE":
+            return f"an object can no longer be read through its public accessors ({x[1]})"
     if len(a) != len(b):
         return f"object count {len(a)} -> {len(b)}"
     kinds = {"V": 0, "N": 0, "G": 0}
@@ -782,10 +850,14 @@ class Gen:
     """Random operations over the current real state. Ids always denote existing objects of the right
     class (the model is typed); everything else may be invalid on purpose."""
 
-    def __init__(self, rng: random.Random, real: Real, p_invalid: float = 0.3, extended: bool = False):
+    def __init__(self, rng: random.Random, real: Real, p_invalid: float = 0.3, extended: bool = False,
+                 views: bool = False):
         # extended: also generate the calls added in round 3 (Node.name=, op_type=, const_value=None, list.sort, every
         # attribute-dict mutator, Tape / Builder, one-shot iterators for remove, a node listed twice)
         self.rng, self.real, self.p_invalid, self.extended = rng, real, p_invalid, extended
+        # views: also create / edit / drop GraphView objects (round 4; C01 / C06 only - other users of this generator
+        # keep their alphabet)
+        self.views = views
         self.focus: dict | None = None  # after a rejected call: keep working on the same container and value
 
     def after(self, op: dict, outcome: str) -> None:
@@ -946,6 +1018,7 @@ class Gen:
             (self.rauw_many, 2),
             (self.rename_values, 3),
             (self.replace_nodes_and_values, 2 if ng and nn else 0),
+            (self.view_op, 3.5 if self.views else 0),
         ]
         fns, weights = zip(*[(f, x) for f, x in w if x > 0])
         op = rng.choices(fns, weights)[0]()
@@ -955,6 +1028,44 @@ class Gen:
 
     def new_value(self):
         return {"op": "newValue", "name": self.rng.choice(NAME_POOL + [None, None, None])}
+
+    def view_op(self):
+        """GraphView: construction from arbitrary values / nodes (owned by any graph or none, repeated, unnamed
+        initializers -> ValueError), slot assignment, edits of the view's plain initializer dict, dropping the view"""
+        rng, real = self.rng, self.real
+        live = [i for i, v in enumerate(real.views) if v is not None]
+
+        def vals(kmax=3):
+            return [self.any_val() for _ in range(rng.choice([0, 1, 2, 2, kmax]))]
+
+        r = rng.random()
+        if not live or r < 0.22:
+            if real.graphs and rng.random() < 0.5:
+                # the documented use: a view on (part of) an existing graph
+                G = rng.choice(real.graphs)
+                ns = [real.nid[id(n)] for n in G]
+                return {"op": "newView", "inputs": [real.vid[id(v)] for v in G.inputs],
+                        "outputs": [real.vid[id(v)] for v in G.outputs], "nodes": ns[: rng.randint(0, len(ns))],
+                        "inits": [real.vid[id(v)] for v in G.initializers.values()]}
+            named = [i for i, v in enumerate(real.vals) if v.name]
+            inits = [rng.choice(named) if named and not self.invalid() else self.any_val()
+                     for _ in range(rng.choice([0, 0, 1, 2]))]
+            nodes = [self.node() for _ in range(rng.choice([0, 1, 2]))] if real.nodes else []
+            return {"op": "newView", "inputs": vals(), "outputs": vals(), "nodes": nodes, "inits": inits}
+        i = rng.choice(live)
+        if r < 0.42:
+            return {"op": "viewSet", "view": i, "slot": "inputs", "vs": vals()}
+        if r < 0.62:
+            return {"op": "viewSet", "view": i, "slot": "outputs", "vs": vals()}
+        keys = list(real.views[i].initializers.keys())
+        if r < 0.76:
+            return {"op": "viewInits", "view": i, "kvs": [[rng.choice(NAME_POOL + keys), self.any_val()]
+                                                          for _ in range(rng.choice([0, 1, 2]))]}
+        if r < 0.88:
+            return {"op": "viewInitPut", "view": i, "key": rng.choice(NAME_POOL + keys), "v": self.any_val()}
+        if r < 0.95:
+            return {"op": "viewInitDel", "view": i, "key": rng.choice(keys + keys + NAME_POOL)}
+        return {"op": "viewDrop", "view": i}
 
     def attr_edit(self):
         rng, real = self.rng, self.real
@@ -1506,7 +1617,7 @@ def allowed_kinds(op: dict, real: Real, shape: str) -> set[str]:
             ok = {"KeyError"}
         elif m == "add":
             ok = {"TypeError", "ValueError"}
-    elif k == "attrEdit":
+    elif k == "attrEdit" or k == "viewInitDel":
         ok = {"KeyError"}
     elif k == "newNode" and op.get("badAttr"):
         ok = {"TypeError", "ValueError"}
@@ -1563,6 +1674,12 @@ def fail_pos(op: dict, real: Real) -> str:
                 return str(i)
             if not V[v].name:
                 pending.setdefault(v, key)
+        return "-"
+    if k == "newNode" and op.get("outputs"):
+        outs = op["outputs"]
+        for i, v in enumerate(outs):
+            if V[v].producer() is not None or V[v].is_graph_input() or v in outs[:i]:
+                return str(i)
         return "-"
     if k == "rauwMany":
         if len(op["vs"]) != len(op["rs"]):
@@ -1674,6 +1791,12 @@ def api_of(op: dict, real: "Real") -> list[str]:
         return ["convenience.rename_values"]
     if k == "replaceNodesAndValues":
         return ["convenience.replace_nodes_and_values"]
+    if k == "newView":
+        return ["GraphView.__init__"]
+    if k == "viewSet":
+        return ["GraphView." + op["slot"]]
+    if k in ("viewInits", "viewInitPut", "viewInitDel"):
+        return ["GraphView.initializers"]
     if k == "tapeInitializer":
         return ["Tape.initializer", "Tape.__init__"]
     if k == "builderNode":
@@ -1696,8 +1819,8 @@ def run_one(
     real = Real(model_sort=True)
     if keep is not None:
         keep.append(real)  # keep earlier instances alive so that fresh objects get fresh addresses
-    gen = Gen(rng, real, p_invalid, extended=True)
-    ops, mops, outcomes, deltas = [], [], [], []
+    gen = Gen(rng, real, p_invalid, extended=True, views=True)
+    ops, mops, outcomes, deltas, views = [], [], [], [], []
     prev = EMPTY
     n = len(fixed_ops) if fixed_ops is not None else length
     for step in range(n):
@@ -1709,6 +1832,10 @@ def run_one(
         elif op["op"] == "sort" and nest_size(real, real.graphs[op["g"]]) > MAX_NEST:
             # graphs shared along many paths: the traversal lists a node once per path (exponential in the depth)
             part.count("skipped=sort-on-huge-shared-nest")
+            op = {"op": "newValue", "name": None}
+        if op["op"] in VIEW_OPS and op["op"] != "newView" and not (
+                op["view"] < len(real.views) and real.views[op["view"]] is not None):
+            part.count("skipped=view-op-without-view")  # fixed histories: there is no object to call it on
             op = {"op": "newValue", "name": None}
         shape = shape_of(op, real)
         label = op["op"] + ("." + op["kind"] + "." + op["m"] if op["op"] == "io" else "." + op["m"] if op["op"] == "init" else "")
@@ -1740,6 +1867,18 @@ def run_one(
         elif op["op"] == "replaceNodesAndValues" and o == "raised":
             sig += f":at-{real.where or 'start'}"
         failed = False
+        if op["op"] in VIEW_OPS:
+            # the frame (C01_view_frame) on the real objects: creating (also a rejected creation), editing or dropping a
+            # GraphView changes no public accessor of any value / node / graph, no counter, no name-authority state
+            after_view = deep_snapshot(real)
+            if after_view != before:
+                for prop_ in ("C01", "C06"):
+                    part.fail(
+                        f"{prop_}|view-frame:{op['op']}",
+                        f"{label} ({o}) changed the state of the viewed objects: {first_diff(before, after_view)}",
+                        {"ops": ops + [op]},
+                    )
+                failed = True
         viol = wf_oracle(real)
         if viol:
             part.fail(
@@ -1769,13 +1908,26 @@ def run_one(
                     )
         if failed:
             break
-        cur = real.snapshot()
+        try:
+            cur = real.snapshot()
+        except Exception as e:  # noqa: BLE001 - an accessor of the real code raised on the state this call left
+            part.fail(
+                f"C01|{sig}",
+                f"after {label} ({o}) the state can no longer be read through the public accessors: "
+                f"{type(e).__name__}: {str(e)[:120]}",
+                {"ops": ops + [op]},
+            )
+            break
         ops.append(op)
         mops.append(mop)
         outcomes.append(o)
         deltas.append(delta(prev, cur))
+        try:
+            views.append(real.views_snapshot())
+        except Exception as e:  # noqa: BLE001 - real code (GraphView's Sequence protocol) on a possibly broken state
+            views.append([f"unreadable: {type(e).__name__}: {str(e)[:80]}"])
         prev = cur
-    return {"ops": ops, "mops": mops, "outcomes": outcomes, "deltas": deltas}
+    return {"ops": ops, "mops": mops, "outcomes": outcomes, "deltas": deltas, "views": views}
 
 
 def _worker(args):
@@ -1834,11 +1986,26 @@ def compare_with_model(ctx, hists: list[dict]) -> None:
             if "sortWF" in st:
                 # hypothesis of C01_sort_step (C12's well-formedness of the tree the model read off its world)
                 ctx.count(f"hyp:C01_sort_step.SortWF={str(st['sortWF']).lower()}:{st['o']}")
+                if "sortExact" in st:
+                    # conclusion of C01_sort_exact evaluated by the driver on every ACCEPTED sort (hypotheses: SortWF and
+                    # acceptance): each graph of the nest is left with exactly the entry the sort model returned.  The
+                    # real graphs are compared with the same model state in the delta below.
+                    ctx.count(f"concl:C01_sort_exact={str(st['sortExact']).lower()}:SortWF={str(st['sortWF']).lower()}")
+                    if st["sortWF"] and not st["sortExact"]:
+                        ctx.disagree(
+                            f"model: accepted sort at step {i} left a graph with a node sequence that is not the entry "
+                            "the sort model returned (C01_sort_exact says this cannot happen)", {"ops": ops[: i + 1]})
+                        break
             if st["o"] != o:
                 ctx.disagree(f"outcome differs at step {i} ({op['op']})", {"ops": ops[: i + 1]}, st["o"], o)
                 break
             if st["o"] == "raised" and not st["eq"] and op["op"] not in NOT_ATOMIC:
                 ctx.disagree(f"model world changed by a raising step {i}", {"ops": ops[: i + 1]})
+                break
+            hv = h["views"][i] if "views" in h else []
+            if st.get("v", []) != hv:
+                ctx.disagree(f"content of the GraphViews differs after step {i} ({op['op']})", {"ops": ops[: i + 1]},
+                             st.get("v", []), hv)
                 break
             if st["d"] != d:
                 what = next(k for k in d if st["d"].get(k) != d[k])
@@ -1998,6 +2165,21 @@ def small_alphabet(reduced: bool = False) -> list[dict]:
         {"op": "sort", "g": 1},
         {"op": "insertBefore", "g": 0, "a": 1, "ns": [2], "via": "function"},
     ]
+    # round 4: GraphView (a view on g0 incl. a value / node of g1 and a free value; an unnamed initializer: ValueError;
+    # slot assignment and the view's plain dict; ops on view 0 are skipped in histories that have not created it)
+    A += [
+        {"op": "newView", "inputs": [0, 2], "outputs": [4, 5], "nodes": [0, 1, 2], "inits": [1, 0]},
+        {"op": "newView", "inputs": [], "outputs": [], "nodes": [], "inits": [2]},
+        {"op": "viewSet", "view": 0, "slot": "inputs", "vs": [4, 4]},
+        {"op": "viewInitPut", "view": 0, "key": "b", "v": 2},
+    ]
+    if not reduced:
+        A += [
+            {"op": "viewSet", "view": 0, "slot": "outputs", "vs": []},
+            {"op": "viewInits", "view": 0, "kvs": [["k", 3], ["k", 2]]},
+            {"op": "viewInitDel", "view": 0, "key": "a"},
+            {"op": "viewDrop", "view": 0},
+        ]
     if not reduced:
         A += [
             {"op": "attrEdit", "n": 0, "key": "then", "graph": 1, "spell": "add"},
@@ -2152,6 +2334,13 @@ def position_scenarios() -> list[list[dict]]:
         calls.append({"op": "newGraph", "inputs": [6], "outputs": at([6, 7, 8], 0, k), "nodes": [], "inits": []})
         calls.append({"op": "newGraph", "inputs": [6], "outputs": [7], "nodes": [], "inits": at([6, 7, 8], 1, k)})
         calls.append({"op": "newGraph", "inputs": [6], "outputs": [7], "nodes": at([3, 4, 5], 0, k), "inits": [8]})
+        # Node(outputs=[...]): a produced value / a graph input / a repeated entry at position k (the entries before it
+        # are acceptable: a constructor that claims while it validates leaves them with a half-built producer)
+        for badv in (3, 0, [6, 7, 8][(k + 1) % 3]):
+            calls.append({"op": "newNode", "opType": "Id", "name": None, "inputs": [], "numOutputs": None,
+                          "outputs": at([6, 7, 8], badv, k), "graph": None})
+        calls.append({"op": "newNode", "opType": "Id", "name": None, "inputs": [1], "numOutputs": None,
+                      "outputs": at([6, 7, 8], 3, k), "graph": 1, "via": "tape"})
         calls.append({"op": "rauwMany", "vs": at([0, 3, 5], 4, k), "rs": [6, 7, 8], "rgo": False})
         calls.append({"op": "rauwMany", "vs": at([0, 3, 5], 4, k), "rs": at([6, 7, 8], 2, k), "rgo": True})
         for c in calls:
@@ -2170,7 +2359,7 @@ def run_position_scenarios(ctx, prop: str, procs: int = 16) -> str:
         ctx.merge(part)
     return (
         f"{len(tails)} histories: every multi-element call (extend / slice assignment / insert_* / remove / update / |= / "
-        "Graph(...) inputs, outputs, initializers, nodes / rauw / rename_values) with its rejected element at position 0, 1, 2"
+        "Graph(...) inputs, outputs, initializers, nodes / Node(outputs=) / rauw / rename_values) with its rejected element at position 0, 1, 2"
     )
 
 
@@ -2267,6 +2456,40 @@ def sort_scenarios() -> list[list[dict]]:
            {"op": "attrEdit", "n": 4, "key": "body0", "spell": "pop"}, {"op": "sort", "g": 2}]
     )
     return out
+
+
+def view_scenarios() -> list[list[dict]]:
+    """For every call of the full small alphabet: views created BEFORE it (one on g0's own collections, one that lists
+    values / nodes of both graphs, free values and repeated entries) and edited AFTER it - the call must behave exactly
+    as without views (same outcome, same delta: the model's kernel world never reads a view) and the views must show
+    the same ids afterwards; then the view is edited and dropped and the same call is made again."""
+    pre = [
+        {"op": "newView", "inputs": [0], "outputs": [4], "nodes": [0, 1], "inits": [1]},
+        {"op": "newView", "inputs": [2, 2, 5], "outputs": [0, 3], "nodes": [2, 0, 2], "inits": [0, 1]},
+    ]
+    post = [
+        {"op": "viewSet", "view": 0, "slot": "inputs", "vs": [5, 0]},
+        {"op": "viewInitPut", "view": 1, "key": "q", "v": 4},
+        {"op": "viewInitDel", "view": 1, "key": "zz"},
+        {"op": "viewDrop", "view": 0},
+    ]
+    out = []
+    for call in small_alphabet(False):
+        if call["op"] in VIEW_OPS:
+            continue
+        out.append(pre + [call] + post + [call])
+    return out
+
+
+def run_view_scenarios(ctx, prop: str, procs: int = 16) -> str:
+    hs = [PRELUDE + t for t in view_scenarios()]
+    chunk = max(1, len(hs) // (procs * 2))
+    jobs = [hs[i : i + chunk] for i in range(0, len(hs), chunk)]
+    for part in pmap(_sort_worker, jobs, procs):
+        split_failures(part, prop)
+        ctx.merge(part)
+    return (f"{len(hs)} GraphView histories: prelude, two views (one on g0's own collections, one mixing graphs, free and "
+            "repeated entries), one call of the small alphabet, view edits / a KeyError / a drop, the same call again")
 
 
 def run_sort_scenarios(ctx, prop: str, procs: int = 16) -> str:
@@ -2369,15 +2592,26 @@ _tbl(
     index=Q(_SEQ_Q), display=Q("prints"), subgraphs=Q(),
     __contains__=Q(_SEQ_Q), __getitem__=Q(_SEQ_Q), __iter__=Q(_SEQ_Q), __len__=Q(_SEQ_Q), __reversed__=Q(_SEQ_Q),
 )
-_GV = ("a GraphView stores plain tuples / a plain dict and never writes to a value, node or graph record (creating a "
-       "view or assigning its slots changes no ownership); checked on every run: `graphview-frame`")
+_GV = ("plain slot of the view object; assigning it stores the object on the view and calls nothing (GraphView has no "
+       "setter, no back pointer from any value / node / graph): CANNOT mutate IR state - exercised by the per-member "
+       "probe `graphview-members` on every run")
+_GVQ = "reads the view's own tuple of nodes (Sequence protocol): cannot mutate IR state (probe `graphview-members`)"
 _tbl(
     "GraphView",
-    __init__=O(_GV), inputs=O(_GV, True), outputs=O(_GV, True), initializers=O(_GV, True), nodes=O(_GV, True),
-    name=O(_GV, True), doc_string=O(_GV, True), opset_imports=O(_GV, True), meta=O(_NOT_KERNEL),
-    metadata_props=O(_NOT_KERNEL), clone=Q("builds new objects (C13)"), count=Q(_SEQ_Q), index=Q(_SEQ_Q),
-    display=Q("prints"),
-    __contains__=Q(_SEQ_Q), __getitem__=Q(_SEQ_Q), __iter__=Q(_SEQ_Q), __len__=Q(_SEQ_Q), __reversed__=Q(_SEQ_Q),
+    __init__=M("newView (stores tuple(inputs) / tuple(outputs) / tuple(nodes) and a plain dict name -> initializer; "
+               "ValueError for an initializer without a name; C01_view_frame: the kernel world is returned unchanged)"),
+    inputs=M("viewSet inputs (plain slot)", True), outputs=M("viewSet outputs (plain slot)", True),
+    initializers=M("viewInits / viewInitPut / viewInitDel (plain slot holding a plain dict: no check, no ownership)", True),
+    nodes=O("declared slot that the class itself never reads or writes (the node tuple is kept in `_nodes` in the instance "
+            "dict): `view.nodes` raises AttributeError until it is assigned, and what is assigned is ignored by iteration; "
+            + _GV, True),
+    name=O("not kernel state; " + _GV, True), doc_string=O("not kernel state; " + _GV, True),
+    opset_imports=O("not kernel state (a plain dict of the view); " + _GV, True),
+    meta=O("lazily creates a MetadataStore ON THE VIEW; " + _NOT_KERNEL + "; cannot mutate IR state (probe)"),
+    metadata_props=O("lazily creates a dict ON THE VIEW; " + _NOT_KERNEL + "; cannot mutate IR state (probe)"),
+    clone=Q("builds new objects (C13); the viewed objects are only read (probe `graphview-members`)"),
+    count=Q(_GVQ), index=Q(_GVQ), display=Q("prints"),
+    __contains__=Q(_GVQ), __getitem__=Q(_GVQ), __iter__=Q(_GVQ), __len__=Q(_GVQ), __reversed__=Q(_GVQ),
 )
 _tbl(
     "Node",
@@ -2417,8 +2651,8 @@ for _cls in ("GraphInputs", "GraphOutputs"):
         copy=Q("returns a plain list of the same values"), count=Q(), index=Q(),
         __add__=Q(_IO_UNSUPPORTED), __radd__=Q(_IO_UNSUPPORTED), __mul__=Q(_IO_UNSUPPORTED), __rmul__=Q(_IO_UNSUPPORTED),
         __contains__=Q(), __getitem__=Q("returns the element / a plain list"), __iter__=Q(), __len__=Q(), __reversed__=Q(),
-        __copy__=F("D421", "copy.copy(graph.inputs) (UserList.__copy__) is a second tracked list on the SAME graph that "
-                   "shares the reference counter: editing the copy clears ownership flags of values the graph still lists"),
+        __copy__=Q("returns a plain list (fix D421, repo 665c24f: it used to be a second tracked list sharing the reference "
+                   "counter); the alias probe re-runs the failing input on every run"),
     )
 _tbl(
     "GraphInitializers",
@@ -2426,12 +2660,11 @@ _tbl(
     __setitem__=M("init setItem"), __delitem__=M("init delItem"), add=M("init add"), pop=M("init pop"),
     popitem=M("init popitem"), clear=M("init clear"), update=M("init update"), setdefault=M("init setdefault"),
     __ior__=M("init update (ior)"),
-    copy=F("D420", "initializers.copy() (UserDict.copy) returns a second TRACKED mapping bound to the same graph: "
-           "popping / clearing the copy clears is_initializer / the owning graph of values the graph still stores"),
-    __copy__=F("D420", "copy.copy(initializers): same aliasing tracked mapping"),
-    __or__=F("D422", "initializers | {...} builds GraphInitializers(<the merged dict>): an object whose `_graph` is a dict; "
-             "storing into it flags the value as initializer of that dict and then raises AttributeError"),
-    __ror__=F("D422", "same as __or__"),
+    copy=Q("returns a plain dict (fix D420, repo 5df9782: it used to be a second TRACKED mapping bound to the same graph); "
+           "the alias probe re-runs the failing input on every run"),
+    __copy__=Q("returns a plain dict (fix D420)"),
+    __or__=Q("returns a plain merged dict (fix D422, repo 26a2f22: it used to build a GraphInitializers whose graph is a dict)"),
+    __ror__=Q("same as __or__"),
     fromkeys=Q("classmethod; always TypeError (the constructor needs a graph)"),
     get=Q(), get_tensor=Q(), items=Q(), keys=Q(), values=Q(), tensors=Q(), tensor_items=Q(),
     __contains__=Q(), __getitem__=Q(), __iter__=Q(), __len__=Q(), __reversed__=Q(),
@@ -2567,17 +2800,96 @@ def _query_probe() -> list[str]:
         if deep_snapshot(real) != before:
             bad.append(f"{key} is classified as a query but changed the state")
             before = deep_snapshot(real)
-    # GraphView frame
-    g0 = real.graphs[0]
-    view = ir.GraphView(list(g0.inputs), list(g0.outputs), nodes=list(g0), initializers=list(g0.initializers.values()))
-    view.inputs = ()
-    view.outputs = tuple(real.vals[:2])
-    view.initializers = {}
-    view.nodes = ()
-    view.name = "v"
-    if deep_snapshot(real) != before:
-        bad.append("GraphView construction / slot assignment changed the state of the viewed objects (graphview-frame)")
+    # GraphView: every public member exercised on a view over the populated state; none may change the IR state
+    bad += graphview_member_probe()[0]
     return bad + ([] if called >= 30 else [f"query probe reached only {called} members"])
+
+
+def graphview_member_probe(real: "Real | None" = None) -> tuple[list[str], dict[str, str]]:
+    """Decide, for EVERY public member of GraphView (taken from introspection, not from a list), whether using it can
+    mutate IR state: each member is exercised on views over a populated state (read, called with arguments that make
+    sense for it, assigned when it is assignable) and the deep snapshot of all values / nodes / graphs (+ name authority,
+    reference counters) must be what it was.  Returns (problems, member -> how it was exercised)."""
+    import contextlib
+    import inspect
+    import io
+
+    import onnx_ir as ir
+
+    if real is None:
+        real = Real()
+        for op in [dict(o) for o in PRELUDE]:
+            real.apply(op)
+    g0, g1 = real.graphs[0], real.graphs[1]
+    bad: list[str] = []
+    how: dict[str, str] = {}
+    before = deep_snapshot(real)
+
+    def unchanged(member, what):
+        nonlocal before
+        how[member] = what
+        now = deep_snapshot(real)
+        if now != before:
+            bad.append(f"GraphView.{member} ({what}) changed the state of the viewed objects: {first_diff(before, now)} "
+                       "(graphview-members)")
+            before = now
+
+    def make():
+        return ir.GraphView(list(g0.inputs) + [real.vals[2]], list(g0.outputs) + list(g0.outputs), nodes=list(g0) + list(g1),
+                            initializers=list(g0.initializers.values()), name="view", doc_string="d", opset_imports={"": 1},
+                            metadata_props={"k": "v"})
+
+    view = make()
+    unchanged("__init__", "constructed over g0's inputs + a free value, repeated outputs, the nodes of two graphs, g0's initializers")
+    try:
+        ir.GraphView([], [], nodes=[], initializers=[real.vals[2]])  # unnamed: ValueError
+        bad.append("GraphView(initializers=[unnamed value]) was accepted")
+    except ValueError:
+        pass
+    unchanged("__init__", how["__init__"] + "; a rejected construction (unnamed initializer: ValueError)")
+    node = real.nodes[0]
+    exercised = {
+        "inputs": lambda: (view.inputs, setattr(view, "inputs", (real.vals[5], real.vals[0], real.vals[0]))),
+        "outputs": lambda: (view.outputs, setattr(view, "outputs", ())),
+        "initializers": lambda: (view.initializers.update({"zz": real.vals[3]}), view.initializers.pop("zz"),
+                                 setattr(view, "initializers", {"q": real.vals[0]})),
+        "nodes": lambda: (setattr(view, "nodes", tuple(real.nodes)), view.nodes),
+        "name": lambda: (view.name, setattr(view, "name", "other")),
+        "doc_string": lambda: (view.doc_string, setattr(view, "doc_string", None)),
+        "opset_imports": lambda: (view.opset_imports.update({"x": 2}), setattr(view, "opset_imports", {})),
+        "meta": lambda: view.meta.__setitem__("k", 1),
+        "metadata_props": lambda: view.metadata_props.__setitem__("k", "w"),
+        "__getitem__": lambda: (view[0], view[-1], view[0:2]),
+        "__len__": lambda: len(view),
+        "__iter__": lambda: list(iter(view)),
+        "__reversed__": lambda: list(reversed(view)),
+        "__contains__": lambda: (node in view, real.nodes[-1] in view),
+        "count": lambda: view.count(node),
+        "index": lambda: view.index(node),
+        "clone": lambda: ir.GraphView(list(g0.inputs), list(g0.outputs), nodes=list(g0),
+                                      initializers=list(g0.initializers.values())).clone(),
+        "display": lambda: view.display(),
+    }
+    members = sorted(k.split(".", 1)[1] for k in introspect_public() if k.startswith("GraphView."))
+    for m in members:
+        if m == "__init__":
+            continue
+        fn = exercised.get(m)
+        if fn is None:
+            bad.append(f"GraphView.{m}: public member without an entry in the per-member probe (graphview-members)")
+            continue
+        try:
+            with contextlib.redirect_stdout(io.StringIO()), contextlib.redirect_stderr(io.StringIO()):
+                fn()
+            unchanged(m, "read / called / assigned: " + inspect.getsource(fn).split("lambda:", 1)[1].strip().rstrip(","))
+        except Exception as e:  # noqa: BLE001 - the member may reject this use; it must still change nothing
+            unchanged(m, f"raised {type(e).__name__}")
+    del view
+    import gc
+
+    gc.collect()
+    unchanged("(drop)", "the last reference to the view dropped, gc.collect()")
+    return bad, how
 
 
 PENDING_FINDINGS = {
@@ -2671,6 +2983,10 @@ def check_alphabet(ctx, prop: str) -> None:
     }
     for msg in _query_probe():
         ctx.disagree("alphabet: " + msg, {})
+    ctx.extra["graphview_members"] = {
+        "decision": "no public member of GraphView can mutate IR state (each exercised on every run, deep snapshot unchanged)",
+        "members": graphview_member_probe()[1],
+    }
     # findings of this round
     known = load_known()
     mentioned = {e.get("id") for e in known.get("known", []) + known.get("fixed", []) if e.get("property") == prop}
